@@ -1,6 +1,8 @@
 """CLI: ./check <ID> [--tier quick|thorough] [--replay file]"""
 import argparse
+import ast
 import importlib
+
 import json
 import os
 import sys
@@ -10,6 +12,7 @@ sys.path.insert(0, os.path.dirname(os.path.dirname(os.path.abspath(__file__))))
 
 from gbsa.report import Run, AnalysisError  # noqa: E402
 from gbsa.model import Repo  # noqa: E402
+from gbsa.stencil import KernelDefect  # noqa: E402
 
 
 def selftest(pid, repo_dir, R):
@@ -57,7 +60,17 @@ def main():
             spec = json.load(open(a.replay))
             R.replay_key = spec.get("finding", {}).get("key")
         try:
-            explanation = mod.run(repo, R)
+            try:
+                explanation = mod.run(repo, R)
+            except KernelDefect as kd:
+                # a definite defect met outside the places that already turn it into a finding
+                g = None
+                for cand in repo.all_functions():
+                    if any(n is kd.node for n in ast.walk(cand.node)):
+                        g = cand
+                R.fail("AXTYPE-K", g.site if g else "kernel", ast.unparse(kd.node)[:100] if hasattr(kd.node, "lineno") else str(kd.node)[:100], kd.msg,
+                       where=g.where(kd.node) if g else None)
+                explanation = "incomplete run: a kernel defect ended the analysis"
         except AnalysisError as e:
             # a rule instance that was already decided as violated stays a violation when a later part of the analysis
             # meets a construct it does not model; without findings the run is analysis-broken (exit 2)
